@@ -15,7 +15,8 @@
    Flags (lexer_participle.go multiplyWithPrefs): `+` f_append, `d` f_deep,
    `?` f_existing (non-creating traversal), `n` f_new (an assignment happens
    only if its target is null; fresh positions are created as null, so they
-   are written, and so is an existing null).
+   are written, and so is an existing null).  `+d` together: sequences are
+   appended, `d` has nothing left to do.
 
    Result None = the *open region* of the property: at a position that exists
    in a, the kinds of the two values differ (map / sequence / scalar) and one
@@ -120,22 +121,19 @@ Fixpoint mv (fl : flags) (t : option node) (b : node) {struct b} : option node :
       | Some _ => if flagged fl then None else option_map Map (entries_with fl (mv fl) [] eb)
       end
   | Seq lb =>
+      (* with `+` a sequence is appended as a whole and its items are not visited, so `d` only acts without `+` *)
+      let deep := f_deep fl && negb (f_append fl) in
       match t with
       | None =>
-          (* null + b = b; with `d` b's items are then assigned onto it by position *)
-          if f_deep fl
-          then option_map Seq (items_with (mv fl) (if f_append fl then lb else []) lb)
-          else Some b
+          (* null = b, null + b = b; with `d` b's items are assigned by position onto an empty sequence *)
+          if deep then option_map Seq (items_with (mv fl) [] lb) else Some b
       | Some (Seq la) =>
           if f_new fl
-          then (* `=` and `+=` are skipped on a non-null target; the items are still visited *)
-               if f_deep fl then option_map Seq (items_with (mv fl) la lb) else Some (Seq la)
-          else match f_append fl, f_deep fl with
-               | false, false => Some b                                         (* replaced *)
-               | true, false => Some (Seq (la ++ lb))                           (* appended *)
-               | false, true => option_map Seq (items_with (mv fl) la lb)       (* by position *)
-               | true, true => option_map Seq (items_with (mv fl) (la ++ lb) lb) (* appended, then by position as well *)
-               end
+          then (* `=` and `+=` are skipped on a non-null target; with `d` the items are still visited *)
+               if deep then option_map Seq (items_with (mv fl) la lb) else Some (Seq la)
+          else if f_append fl then Some (Seq (la ++ lb))                          (* appended *)
+          else if f_deep fl then option_map Seq (items_with (mv fl) la lb)        (* by position *)
+          else Some b                                                             (* replaced *)
       | Some _ =>
           if flagged fl then None
           else if f_deep fl then option_map Seq (items_with (mv fl) [] lb) else Some b
